@@ -45,6 +45,8 @@ def configs(tier):
         for nm in ('int', 'float', 'mixed'):
             cfgs.append(dict(group='marginal', strat=strat, d=3, q=1, m=2, storage='batch', names=nm, _cost=64))
         cfgs.append(dict(group='marginal', strat=strat, d=2, q=2, m=2, storage='batch', labels=2, _cost=64))
+        cfgs.append(dict(group='marginal', strat=strat, d=2, q=1, m=2, storage='batch', row_only_key=True, _cost=64))
+        cfgs.append(dict(group='marginal', strat=strat, d=3, q=1, m=2, storage='batch', positional=True, _cost=64))
     # histories: the same imputer object used across storage updates (fill phase, at capacity, after eviction)
     for strat in ('joint', 'product'):
         for st in ('batch', 'interval', 'sequence', 'uniform', 'geometric'):
@@ -85,8 +87,11 @@ def _subsets_forms(env, names):
 def _marginal(env, cfg, ctx):
     names = names_for(cfg.get('names', 'str'), cfg['d'])
     labels = LABELSETS[cfg.get('labels', 1)]
-    model = UFModel(env, names, labels=labels)
+    model = UFModel(env, names, labels=labels, positional=cfg.get('positional', False))
     storage, rows, ys = build_storage(env, cfg['storage'], names, cfg['m'], store_targets=True)
+    if cfg.get('row_only_key'):
+        for r_i, r in enumerate(rows):
+            r['w'] = env.real(f"row{r_i}_w")      # stored observations carry a key the explained instance lacks
     imp = guarded(env, 'ctor', MarginalImputer, model, cfg['strat'], storage)
     x = sym_row(env, names, 'x')
     x_copy = dict(x)
@@ -104,7 +109,13 @@ def _marginal(env, cfg, ctx):
     for z, pr in zip(model.calls, preds):
         env.claim('prediction_is_model_output_of_its_input',
                   set(pr.keys()) == set(labels) and And(*[eq(pr[lab], model.value(z, lab)) for lab in labels]))
-        env.claim('input_has_exactly_the_instance_features', list(z.keys()) == list(x.keys()) or set(z.keys()) == set(x.keys()))
+        env.claim('input_has_exactly_the_instance_features', set(z.keys()) == set(x.keys()),
+                  detail=f"model input keys {list(z.keys())}, instance keys {list(x.keys())}")
+        if cfg.get('positional'):
+            # a model that reads the values by position (wrapper without feature names): replacing must happen in place
+            z_exp = {f: (z[f] if f in S else x[f]) for f in x}
+            env.claim('imputed_values_replace_in_place_for_positional_models',
+                      And(*[eq(pr[lab], model.value(z_exp, lab)) for lab in labels]))
         for f in names:
             if f not in S:
                 env.claim('features_outside_subset_keep_instance_value', same_term(z[f], x[f]))
